@@ -12,7 +12,10 @@ TRUSTED = [
     "(observed by the harness for pass / FAIL / FAIL_C / std exception / foreign exception; proved in C01's model, not here)",
 ]
 ASSUMPTIONS = [
-    "one SetPointerPlugin object per process (its constructor resets the process-wide table index)",
+    "constructing a SetPointerPlugin resets the process-wide table index (modelled: construction = index := 0); entries "
+    "recorded by tests that ran without an enabled plugin are forgotten by a construction and otherwise undone by the next "
+    "active post action (the oracle then demands the values from the last point where the table was empty; with an empty "
+    "table at test start that is literally the property's clause)",
     "a plugin object is installed at most once at a time (installing a linked object again makes the chain cyclic)",
     "removePluginByName is not called with the sentinel's own name \"null\" (see report: that unlinks the sentinel)",
     "plugin names pairwise different for the remove-exactly claim (with duplicates up to three plugins go; modelled, not claimed)",
@@ -20,8 +23,10 @@ ASSUMPTIONS = [
 RULE = ("chains of 0-8 recording plugins + the real SetPointerPlugin at a random position, random enable patterns, "
         "install/remove/enable/disable/reset/get interleaved with 1-10 consecutive scripted tests doing 0-40 UT_PTR_SET "
         "redirections over 40 pointers (targets drawn from a small subset so repeats are the rule; 32, 33 and more entries "
-        "frequent) and ending by pass / FAIL / FAIL_TEXT_C / std::runtime_error / throw 42; a tagged stream with the "
-        "SetPointerPlugin absent or disabled for some tests, one with duplicate names, one malformed. non-trivial = at "
+        "frequent) and ending by pass / FAIL / FAIL_TEXT_C / std::runtime_error / throw 42; the pointer plugin is "
+        "disabled/enabled, removed by name and replaced by a NEWLY CONSTRUCTED one between tests (stream setlife: tests "
+        "while it is inactive, also up to the limit across tests, then a fresh or the re-enabled plugin and short tests on "
+        "the same few pointers); a tagged stream with the SetPointerPlugin absent or disabled for some tests, one with duplicate names, one malformed. non-trivial = at "
         "least one test that redirected something with at least one plugin installed")
 
 OUTCOMES = ["pass", "pass", "fail", "failc", "throw", "throwint"]
@@ -92,13 +97,58 @@ def gen_case(rng, ntests, with_set=True, dup=False, malformed=False):
                 if with_set and rng.random() < 0.8:
                     ops.append("install set")
             elif not with_set:
-                ops.append(rng.choice(["install set", "install set", "remove SetPointerPlugin", "disable set", "enable set"]))
+                ops.append(rng.choice(["install set", "install set", "remove SetPointerPlugin", "disable set", "enable set", "newset"]))
+            elif x < 0.92:
+                # life cycle of the pointer plugin inside ordinary cases
+                ops.extend(rng.choice([["disable set"], ["enable set"], ["remove SetPointerPlugin"], ["install set"],
+                                       ["remove SetPointerPlugin", "newset", "install set"], ["newset", "install set"]]))
         ops.extend(gen_test(rng))
     if malformed:
-        junk = ["install 3", "install 3", "install set", "remove null", "run bogus", "set 99 1", "set 1 99", "set 1", "run",
+        junk = ["install 3", "install 3", "install set", "remove null", "run bogus", "newset", "disable 100", "enable 99", "set 99 1", "set 1 99", "set 1", "run",
                 "frob", "enable 77", "install", "get", "remove", "run pass"]
         for _ in range(rng.randint(1, 4)):
             ops.insert(rng.randint(0, len(ops)), rng.choice(junk))
+    return ops
+
+
+def small_test(rng, pool, nmax=2, outcomes=("pass", "fail")):
+    return ["set %d %d" % (rng.choice(pool), rng.randrange(64)) for _ in range(rng.randint(1, nmax))] + ["run %s" % rng.choice(outcomes)]
+
+
+def gen_setlife(rng):
+    """life cycle of the pointer plugin: tests that run while it is disabled or removed (entries stay recorded, the
+    index keeps growing, also up to the limit across tests), then either the same plugin becomes active again or
+    it is removed by name and a NEWLY CONSTRUCTED one is installed, then short tests on the same few pointers"""
+    ops = []
+    pool = rng.sample(range(40), rng.choice([1, 2, 3]))
+    recs = rng.sample(range(8), rng.randint(0, 3))
+    for r in recs[:len(recs) // 2]:
+        ops.append("install %d" % r)
+    ops.append("install set")
+    for r in recs[len(recs) // 2:]:
+        ops.append("install %d" % r)
+    for phase in range(rng.randint(1, 4)):
+        how = rng.choice(["disable", "disable", "remove", "none"])
+        if how == "disable":
+            ops.append("disable set")
+        elif how == "remove":
+            ops.append("remove SetPointerPlugin")
+        for _ in range(rng.randint(0, 3)):
+            if rng.random() < 0.3:
+                ops.extend(small_test(rng, pool, nmax=rng.choice([12, 20, 33]), outcomes=OUTCOMES))   # towards the limit across tests
+            else:
+                ops.extend(small_test(rng, pool, nmax=3, outcomes=OUTCOMES))
+        y = rng.random()
+        if y < 0.6:
+            if rng.random() < 0.8:
+                ops.append("remove SetPointerPlugin")
+            ops += ["newset", "install set"]
+        elif y < 0.8:
+            ops += ["enable set", "install set"]        # `install set` is skipped by the harness if it is still linked
+        else:
+            ops += ["newset"]                            # constructed but not installed
+        for _ in range(rng.randint(1, 3)):
+            ops.extend(small_test(rng, pool))
     return ops
 
 
@@ -110,6 +160,8 @@ def generate(rng, tier):
         out.append(("gen", gen_case(rng, rng.randint(1, 10))))
     for i in range(n // 5):
         out.append(("noset", gen_case(rng, rng.randint(1, 8), with_set=False)))
+    for i in range(n // 3):
+        out.append(("setlife", gen_setlife(rng)))
     for i in range(n // 8):
         out.append(("dupnames", gen_case(rng, rng.randint(1, 4), dup=True)))
     for i in range(n // 10):
